@@ -67,7 +67,7 @@ def run(chk: core.Check, tier: str, seed: int) -> None:
     # (4) GEN: every text  prefix u1..un suffix  over five families of units (MC_Parser.tla, where TLC also checks
     #     T15: the implementation-shaped lexer + Pratt parser of Parser.tla rejects what the grammar rejects)
     from .. import parserconf  # noqa: PLC0415
-    ugens, uruns = parserconf.unit_texts(tier, "c04_units")
+    ugens, uruns = parserconf.unit_texts(tier, "c04_units", more={"logic": 4})
     for label, res in uruns:
         chk.add_tlc(label, res)
     texts += [core.dec_text(g["q"]) for g in ugens]
@@ -85,7 +85,7 @@ def run(chk: core.Check, tier: str, seed: int) -> None:
     chk.sample({"text": core.dec_text(recs[777]["q"]), "compile": recs[777]["out"]})
     chk.sample({"text": core.dec_text(recs[-1]["q"]), "compile": recs[-1]["out"]})
     common.judge(chk, recs, "c04", what="Trace: compile() outcomes vs Syntax (must-reject side)",
-                 only=lambda c: c.startswith("C04"))
+                 only=lambda c: c.startswith(("C04", "C13 compile raised")))      # "raise a JSONPathError": another exception is not a rejection
     chk.exhaustive = False
     chk.rule = (
         f"{n_short} strings '$'+w over {len(ALPHA)} symbols with |w|<={n} (complete), {n_seq} seeded lexeme sequences (<=9 of "
